@@ -24,7 +24,7 @@ GMinLen == atoi(Env("C06_MINLEN", "1"))
 GMaxLen == atoi(Env("C06_MAXLEN", "3"))
 GNames  == atoi(Env("C06_NAMES", "3"))          \* number of op names
 GInit   == atoi(Env("C06_INIT", "1"))           \* how many of them are in the starting archive
-GEnc    == Env("C06_ENC", "0") = "1"            \* use encryption options
+GEnc    == atoi(Env("C06_ENC", "0"))            \* 0: no encryption, 1: + encrypt, 2: + fix_key
 GFill   == Env("C06_FILL", "0") = "1"           \* sim: addition-heavy histories (more additions than free slots)
 GCls    == Env("C06_CLASS", "c")
 
@@ -46,19 +46,20 @@ GInitTok == [x \in {GInitSeq[j] : j \in 1..Len(GInitSeq)} |-> "i:" \o x]
 
 VARIABLES hist,      \* the calls so far: [op, n, m, rep, comp, enc]
           gkind,     \* sim mode: the kind chosen for the next call ("" = none yet)
+          gres,      \* result class the model of the code predicts for each call of hist
           gpreds,    \* what the model of the code predicts a fresh open reads after each close so far
           gdone
-gvars == <<hslots, hblocks, hcursor, ddisk, wopen, wdirty, vlf, stale, pc, opr, pidx, pcnt, hsnap, lastres, devs, vcalls, hist, gkind, gpreds, gdone>>
+gvars == <<hslots, hblocks, hcursor, ddisk, wopen, wdirty, vlf, stale, staleMap, pc, opr, pidx, pcnt, hsnap, lastres, devs, vcalls, hist, gkind, gres, gpreds, gdone>>
 
 OpRec(o, n, m, rep, comp, enc) == [op |-> o, n |-> n, m |-> m, rep |-> rep, comp |-> comp, enc |-> enc]
 Tok(k) == "o" \o ToString(k)
 CompOf(k, n) == IF (k + Len(n)) % 2 = 0 THEN "zlib" ELSE "none"
-Encs == IF GEnc THEN {"none", "enc", "fix"} ELSE {"none"}
+Encs == CASE GEnc = 0 -> {"none"} [] GEnc = 1 -> {"none", "enc"} [] OTHER -> {"none", "enc", "fix"}
 Comps(k, n) == IF GMode = "sim" THEN {"zlib", "none"} ELSE {CompOf(k, n)}
 K == Len(hist) + 1
 
 GAdd    == \E n \in OpNames, rep \in BOOLEAN, enc \in Encs : \E comp \in Comps(K, n) :
-              BeginAdd(n, Tok(K), rep, enc) /\ hist' = Append(hist, OpRec("add", n, "", rep, comp, enc))
+              BeginAdd(n, Tok(K), rep, enc, comp) /\ hist' = Append(hist, OpRec("add", n, "", rep, comp, enc))
 GRemove == \E n \in OpNames : BeginRemove(n) /\ hist' = Append(hist, OpRec("remove", n, "", TRUE, "none", "none"))
 GRename == \E a \in OpNames, b \in OpNames : BeginRename(a, b) /\ hist' = Append(hist, OpRec("rename", a, b, TRUE, "none", "none"))
 GFlush  == (FlushClean \/ FlushInPlace \/ FlushV3Broken) /\ hist' = Append(hist, OpRec("flush", "", "", TRUE, "none", "none"))
@@ -74,28 +75,31 @@ More == Len(hist) < GMaxLen /\ ~gdone /\ pc = "idle"
 Kinds == IF GFill THEN {"add1", "add2", "add3", "add4", "add5", "add6", "add7", "remove", "flush", "reopen"}
          ELSE {"add1", "add2", "add3", "add4", "remove", "rename", "compact", "flush", "reopen", "reopen2"}
 PickKind == /\ GMode = "sim" /\ More /\ wopen /\ gkind = ""
-            /\ gkind' \in Kinds /\ UNCHANGED <<hslots, hblocks, hcursor, ddisk, wopen, wdirty, vlf, stale, pc, opr, pidx, pcnt, hsnap, lastres, devs, vcalls, hist, gpreds, gdone>>
+            /\ gkind' \in Kinds /\ UNCHANGED <<hslots, hblocks, hcursor, ddisk, wopen, wdirty, vlf, stale, staleMap, pc, opr, pidx, pcnt, hsnap, lastres, devs, vcalls, hist, gres, gpreds, gdone>>
 Allowed(kd) == GMode = "bfs" \/ gkind \in kd
 Call == /\ More /\ (GMode = "bfs" \/ gkind # "") /\ gkind' = "" /\ UNCHANGED gdone
-        /\ \/ Allowed({"add1", "add2", "add3", "add4", "add5", "add6", "add7"}) /\ GAdd /\ UNCHANGED gpreds
-           \/ Allowed({"remove"}) /\ GRemove /\ UNCHANGED gpreds
-           \/ Allowed({"rename"}) /\ GRename /\ UNCHANGED gpreds
-           \/ Allowed({"flush"}) /\ GFlush /\ UNCHANGED gpreds
-           \/ Allowed({"compact"}) /\ GCompact /\ UNCHANGED gpreds
-           \/ Allowed({"reopen", "reopen2"}) /\ wopen /\ GClose
+        /\ \/ Allowed({"add1", "add2", "add3", "add4", "add5", "add6", "add7"}) /\ GAdd /\ UNCHANGED <<gres, gpreds>>
+           \/ Allowed({"remove"}) /\ GRemove /\ UNCHANGED <<gres, gpreds>>
+           \/ Allowed({"rename"}) /\ GRename /\ UNCHANGED <<gres, gpreds>>
+           \/ Allowed({"flush"}) /\ GFlush /\ gres' = Append(gres, "ok") /\ UNCHANGED gpreds
+           \/ Allowed({"compact"}) /\ GCompact /\ gres' = Append(gres, "ok") /\ UNCHANGED gpreds
+           \/ Allowed({"reopen", "reopen2"}) /\ wopen /\ GClose /\ UNCHANGED gres
 \* after a close the only thing to do is to open again (or to stop); the first open is implicit
 Reopen == /\ ~gdone /\ pc = "idle" /\ ~wopen /\ ddisk.ok /\ gkind # "final" /\ (vcalls = 0 \/ Len(hist) < GMaxLen)
-          /\ GReopen /\ UNCHANGED <<gkind, gpreds, gdone>>
-Step == ~gdone /\ ~Hung /\ CodeSteps /\ UNCHANGED <<hist, gkind, gpreds, gdone>>
+          /\ GReopen /\ gres' = (IF vcalls = 0 THEN gres ELSE Append(gres, "ok")) /\ UNCHANGED <<gkind, gpreds, gdone>>
+Step == /\ ~gdone /\ ~Hung /\ CodeSteps
+        /\ gres' = (IF pc' = "idle" THEN Append(gres, lastres') ELSE gres)
+        /\ UNCHANGED <<hist, gkind, gpreds, gdone>>
 \* the history is complete: the harness drops the archive (flush on drop) ...
 FinalClose == /\ ~gdone /\ pc = "idle" /\ wopen /\ gkind = "" /\ Len(hist) >= GMinLen /\ (GMode = "bfs" \/ Len(hist) >= GMaxLen)
-              /\ GClose /\ gkind' = "final" /\ UNCHANGED gdone
+              /\ GClose /\ gkind' = "final" /\ UNCHANGED <<gres, gdone>>
 
 \* one prediction per close (every reopen, then the final one); a spinning call ends the history
 Preds == IF Hung THEN Append(gpreds, [kind |-> "hang"]) ELSE gpreds
 CaseRec == [cls |-> GCls, ver |-> GVer, lf |-> GLF, at |-> GAT, slack |-> IF GVer >= 3 THEN -1 ELSE GSlack,
             names |-> [j \in 1..GNames |-> [n |-> AllNames[j], home |-> HomeSeq[j]]], padhome |-> PadHome,
-            init |-> [j \in 1..GInit |-> AllNames[j]], ops |-> hist, devs |-> devs, preds |-> Preds]
+            init |-> [j \in 1..GInit |-> AllNames[j]], ops |-> hist, devs |-> devs, preds |-> Preds,
+            pres |-> IF Hung THEN Append(gres, "hang") ELSE gres]
 \* ... and the case is printed
 Emit == /\ ~gdone
         /\ \/ gkind = "final" /\ ~wopen
@@ -103,8 +107,8 @@ Emit == /\ ~gdone
            \/ pc = "idle" /\ ~wopen /\ ~ddisk.ok /\ Len(hist) >= 1
         /\ PrintT("CASE " \o ToJson(CaseRec))
         /\ gdone' = TRUE
-        /\ UNCHANGED <<hslots, hblocks, hcursor, ddisk, wopen, wdirty, vlf, stale, pc, opr, pidx, pcnt, hsnap, lastres, devs, vcalls, hist, gkind, gpreds>>
+        /\ UNCHANGED <<hslots, hblocks, hcursor, ddisk, wopen, wdirty, vlf, stale, staleMap, pc, opr, pidx, pcnt, hsnap, lastres, devs, vcalls, hist, gkind, gres, gpreds>>
 
-GInitState == HInit /\ hist = <<>> /\ gkind = "" /\ gpreds = <<>> /\ gdone = FALSE
+GInitState == HInit /\ hist = <<>> /\ gkind = "" /\ gres = <<>> /\ gpreds = <<>> /\ gdone = FALSE
 GNext == PickKind \/ Call \/ Reopen \/ Step \/ FinalClose \/ Emit
 =============================================================================
